@@ -14,6 +14,71 @@ def _first(sock, tr):
     return N.recv(sock, tr)
 
 
+# ------------------------------------------------------------------ C02: storage that accepts only part of a block
+def c02(v, tier):
+    """Uploads to servers whose process may not grow any file beyond a limit (RLIMIT_FSIZE, SIGXFSZ ignored): the write
+    that crosses the limit is short, the next one fails. Whenever an ACK(k) arrives, the file must already hold blocks 1..k."""
+    ctx = Ctx("C02", tier)
+    tftpd = ctx.bins["release"]["tftpd"]
+    rng = ctx.rng
+    cases = [(800, 900, 512, 1), (3300, 3500, 1024, 4), (1000, 1600, 512, 1), (1024, 1600, 512, 1), (None, 3000, 512, 2),
+             (5000, 5000, 512, 3), (4999, 5000, 512, 3), (100, 4000, 8, 16)]
+    for _ in range(16 if tier == "thorough" else 4):
+        b = rng.choice([8, 100, 512, 1428])
+        w = rng.choice([1, 2, 5])
+        n = rng.randint(1, 12)
+        size = n * b + rng.randint(0, b - 1)
+        cases.append((rng.randint(1, size), size, b, w))
+    plans = [(single, c) for single in (False, True) for c in cases]
+    checks = {"ack_time_file_checks": 0, "uploads_cut_by_limit": 0, "uploads_completed": 0}
+
+    def one(p):
+        single, (lim, size, b, w) = p
+        sb = ctx.sandbox("c02")
+        content = N.keyed_content(f"c02-{lim}-{size}-{b}-{w}", size)
+        path = os.path.join(sb["srv"], "up.bin")
+        bad = []
+        nchecks = [0]
+
+        def on_ack(blk, base, bb):
+            d = (blk - base) & 0xFFFF
+            if d >= w:
+                return
+            acked = min((base + d) * bb, size)
+            try:
+                got = open(path, "rb").read()
+            except OSError:
+                got = None
+            nchecks[0] += 1
+            if got is None or got[:acked] != content[:acked]:
+                bad.append((base + d, acked, None if got is None else len(got)))
+
+        with N.Server(tftpd, sb["srv"], single=single, logdir=sb["logs"], fsize_limit=lim) as srv:
+            tr = N.upload(srv.addr, "up.bin", content, [("blksize", b), ("windowsize", w), ("timeout", 1)], family=srv.family, timeout=0.5, on_ack=on_ack)
+            time.sleep(0.05)
+            final = open(path, "rb").read() if os.path.exists(path) else None
+        return p, tr, bad, nchecks[0], final, content
+
+    with concurrent.futures.ThreadPoolExecutor(max_workers=8) as ex:
+        for p, tr, bad, n, final, content in ex.map(one, plans):
+            single, (lim, size, b, w) = p
+            checks["ack_time_file_checks"] += n
+            replay = {"engine": "net", "single_port": single, "file_size_limit": lim, "upload_len": size, "blksize": b, "windowsize": w, "acks": [a[0] for a in tr.acks][:20]}
+            mode = "single" if single else "multi"
+            if bad:
+                k, acked, have = bad[0]
+                v.violation("C02/net/ack-before-stored", f"{mode}-port, file size limit {lim}: ACK({k}) arrived while the file held {have} of the {acked} acknowledged bytes (upload {size} B, blksize {b}, windowsize {w})", replay)
+            if tr.completed:
+                checks["uploads_completed"] += 1
+                if final != content:
+                    v.violation("C02/net/final-ack-file-differs", f"{mode}-port, file size limit {lim}: final block acknowledged but the stored file ({None if final is None else len(final)} B) is not the uploaded payload ({size} B)", replay)
+            else:
+                checks["uploads_cut_by_limit"] += 1
+                if lim is None or lim >= size:
+                    v.note_inconclusive(f"{mode}-port: upload below the file size limit did not complete ({tr.note} {tr.error})")
+    return checks, len(plans)
+
+
 # ------------------------------------------------------------------ C13
 def c13_dup_wrq(v, ctx, tftpd, overwrite, pairs, T=1):
     """retransmitted WRQ for one name: finish on the most recently accepted worker, let the earlier one time out"""
@@ -639,9 +704,28 @@ def c01_c04(v, tier, pid):
             for r in ex.map(lambda j: oack_lost_fallback(v, j[0], j[1], j[2], j[3], pid), jobs):
                 evals += 1
                 fallback[r] = fallback.get(r, 0) + 1
+    repeated = 0
+    if pid == "C01":
+        # a request that repeats an option with different values: whatever the OACK says, each DATA block must be a slice of
+        # one of the acknowledged lengths and a client that takes the OACK at its word never completes a wrong copy
+        reps = [[("blksize", 1024), ("blksize", 512)], [("blksize", 512), ("blksize", 1024)], [("blksize", 700), ("tsize", 0), ("BLKSIZE", 1400)],
+                [("windowsize", 2), ("blksize", 256), ("windowsize", 4), ("blksize", 128)], [("blksize", 64), ("blksize", 64)]]
+        for srv in servers:
+            want = open(os.path.join(srv.args[srv.args.index("-d") + 1], "f.bin"), "rb").read()
+            for opts in reps:
+                tr = N.download(srv.addr, "f.bin", opts, family=srv.family, timeout=0.7)
+                evals += 1
+                repeated += 1
+                listed = [int(val) for k, val in (getattr(tr, "oack_list", None) or []) if k == "blksize"] or [512]
+                replay = {"engine": "net", "kind": "repeated-options", "options": opts, "oack": getattr(tr, "oack_list", None), "block_lengths": [b[2] for b in tr.blocks][:12], "single_port": srv.single}
+                mode = "single" if srv.single else "multi"
+                if tr.completed and bytes(tr.data) != want:
+                    v.violation("C01/net/repeated-option/wrong-copy", f"{mode}-port: RRQ {opts} answered OACK {getattr(tr, 'oack_list', None)}; the client completed with {len(tr.data)} of {len(want)} bytes", replay)
+                elif any(ln not in listed for (_, _, ln, _, _) in tr.blocks[:-1]) or (tr.blocks and all(tr.blocks[-1][2] > x for x in listed)):
+                    v.violation("C01/net/repeated-option/block-length", f"{mode}-port: RRQ {opts} answered OACK {getattr(tr, 'oack_list', None)} but DATA blocks carry {[b[2] for b in tr.blocks][:6]} bytes", replay)
     for s in servers:
         s.stop()
-    return {"net_spot_checks": evals, "oack_lost_fallback_outcomes": fallback}, evals
+    return {"net_spot_checks": evals, "oack_lost_fallback_outcomes": fallback, "repeated_option_downloads": repeated}, evals
 
 
 def c15(v, tier):
@@ -669,4 +753,4 @@ def c15(v, tier):
     return {"net_wrap_transfers": evals}, evals
 
 
-EXT = {"C13": c13, "C16": c16, "C07": c07, "C01": lambda v, t: c01_c04(v, t, "C01"), "C04": lambda v, t: c01_c04(v, t, "C04"), "C15": c15}
+EXT = {"C02": c02, "C13": c13, "C16": c16, "C07": c07, "C01": lambda v, t: c01_c04(v, t, "C01"), "C04": lambda v, t: c01_c04(v, t, "C04"), "C15": c15}
